@@ -14,6 +14,7 @@ CLAIMED = {
                 text="Seeded interleaved API histories over a pool of generator instances and caller-owned event objects (fresh, reused, pre-filled, shrunk, copied), with cancellation, "
                      "allocation-failure and steering faults attached to operations; every successful shot is compared field by field with the canonical history for the same "
                      "(configuration, deviate stream); objects are also re-configured in place after a rejected initialise, and post-generation operation objects are caller-owned and shared between generators. "
+                     "A companion suite drives the low-level genbbsub entry point directly with one caller-owned parameter block through several configurations and compares with a new block. "
                      "A second batch runs every history in a freshly forked process and takes the reference from a process forked before the run touched the library (nothing happened before). "
                      "Violations are shrunk and replayed in a fresh process (with the worker's history as a prelude when process-wide state is involved) before being reported.",
                 note="Trusted: the reference is the SUT itself in the canonical history (fresh instance, fresh event), so a defect that affects every history identically is invisible here (C01/C02 territory)."),
@@ -50,7 +51,7 @@ CLAIMED = {
                 text="The real bxdecay0-run main(), parser and driver run in-process with argv from a seeded plan, output on the simulated disk and time() simulated. Checked: byte equality of the event file "
                      "with a reference written against the public API; byte-identical reruns under another epoch and write chunking; companion key/values; at every kill point of every run (after each "
                      "write, at seeded offsets inside each, and at the truncation of an existing file) that the completion marker implies a complete event file - also when the basename already holds the files of an "
-                     "earlier complete run; the same implication under ENOSPC/EIO/open failures; refused lines (incl. near-miss spellings of every option) leave no event record; no crash, "
+                     "earlier complete run; the same implication under ENOSPC/EIO/open failures and when a catchable SIGTERM/SIGINT is delivered to a handler the program installed; refused lines (incl. near-miss spellings of every option) leave no event record; no crash, "
                      "sanitizer report or libstdc++ assertion.",
                 note="Kill points are enumerated exhaustively per explored run (fault_enumeration); the command-line space is sampled. fsync/rename-style durability is out of scope: the program does not use them and the property does not ask."),
     "C12": dict(level="exploration", ref="DESIGN.md section 3 (C12)", replay_flavour="asan",
